@@ -182,6 +182,11 @@ pub struct ExecOpts {
     /// (managed thread id, k): suspend that thread for good at its k-th scheduling point
     #[serde(default)]
     pub freeze: Option<(usize, u64)>,
+    /// poll / start_send / poll_complete are bound to 400 + 60 * (spin counts) of their own
+    /// scheduling points in a row without a change by another thread (C15: they never wait inside
+    /// the call)
+    #[serde(default)]
+    pub fut_quiet: bool,
 }
 
 fn default_probe_bound() -> u64 {
@@ -204,6 +209,7 @@ impl Default for ExecOpts {
             try_quiet: false,
             cyclic_schedule: false,
             freeze: None,
+            fut_quiet: false,
         }
     }
 }
@@ -1754,6 +1760,7 @@ fn run_scenario_inner(sc: &Scenario) -> Execution {
         quarantine: sc.opts.quarantine,
         cyclic: sc.opts.cyclic_schedule,
         freeze: sc.opts.freeze,
+        fut_quiet_bound: if sc.opts.fut_quiet && sc.q.futures { 400 + 60 * (sa + sy) } else { 0 },
         // only where C18 is stated: plain handles on a busy or yielding queue
         try_quiet_bound: if sc.opts.try_quiet
             && !sc.q.futures
